@@ -771,13 +771,38 @@ async fn serve_tcp(mut s: TcpStream, script: TcpScript, log: Log, segments_writt
     }
 }
 
+/// Bind a loopback listener, patiently: on a machine that runs other network jobs the ephemeral ports (or the descriptor
+/// budget) can be used up for a moment; that is the environment's business and must not end a run as inconclusive.
+async fn bind_loopback() -> Option<TcpListener> {
+    let mut last = String::new();
+    for attempt in 0..100u32 {
+        match TcpListener::bind("127.0.0.1:0").await {
+            Ok(l) => return Some(l),
+            Err(e) => last = e.to_string(),
+        }
+        tokio::time::sleep(Duration::from_millis(50 + u64::from(attempt) * 5)).await;
+    }
+    eprintln!("bind_loopback: giving up after 100 attempts: {last}; open descriptors: {}", std::fs::read_dir("/proc/self/fd").map(|d| d.count()).unwrap_or(0));
+    None
+}
+
+async fn reserve_port() -> Option<ReservedPort> {
+    for attempt in 0..100u32 {
+        if let Some(r) = ReservedPort::new() {
+            return Some(r);
+        }
+        tokio::time::sleep(Duration::from_millis(50 + u64::from(attempt) * 5)).await;
+    }
+    None
+}
+
 async fn start_http(slot: Slot, script: Arc<Mutex<HttpScript>>, log: Log) -> Option<Mock> {
     let refused = script.lock().map(|g| g.beh == HttpBeh::Refused).unwrap_or(false);
     if refused {
-        let r = ReservedPort::new()?;
+        let r = reserve_port().await?;
         return Some(Mock { port: r.port, task: None, _reserved: Some(r) });
     }
-    let listener = TcpListener::bind("127.0.0.1:0").await.ok()?;
+    let listener = bind_loopback().await?;
     start_http_on(listener, slot, script, log)
 }
 
@@ -804,10 +829,10 @@ fn start_http_on(listener: TcpListener, slot: Slot, script: Arc<Mutex<HttpScript
 async fn start_tcp(script: Arc<Mutex<TcpScript>>, log: Log, segments_written: Arc<AtomicU64>) -> Option<Mock> {
     let refused = script.lock().map(|g| g.beh == TcpBeh::Refused).unwrap_or(false);
     if refused {
-        let r = ReservedPort::new()?;
+        let r = reserve_port().await?;
         return Some(Mock { port: r.port, task: None, _reserved: Some(r) });
     }
-    let listener = TcpListener::bind("127.0.0.1:0").await.ok()?;
+    let listener = bind_loopback().await?;
     start_tcp_on(listener, script, log, segments_written)
 }
 
@@ -2490,6 +2515,9 @@ fn main() {
                         }
                     }
                     Err(e) if e.starts_with("watchdog") => ctx.inconclusive(&format!("{e} ({})", sc.to_json())),
+                    // no loopback port could be had for this scenario even after waiting (the machine's ephemeral ports or
+                    // descriptors were used up by other jobs): the scenario is skipped; only many of them make the run inconclusive
+                    Err(e) if e.starts_with("harness: cannot bind") => ctx.obs("scenarios.skipped(no loopback port available)", 1),
                     Err(e) => ctx.inconclusive(&e),
                 }
             })
@@ -2498,6 +2526,13 @@ fn main() {
     for h in handles {
         if rt.block_on(h).is_err() {
             ctx.inconclusive("a scenario task panicked in the harness");
+        }
+    }
+    {
+        let no_port = ctx.get_obs("scenarios.skipped(no loopback port available)");
+        let ran = ctx.get_obs("scenarios.matrix_run");
+        if no_port > 0 && no_port * 50 > ran {
+            ctx.inconclusive(&format!("{no_port} scenarios could not get a loopback port ({ran} matrix scenarios ran)"));
         }
     }
     let sk = skipped.load(Ordering::Relaxed);
